@@ -498,15 +498,16 @@ func (r *zzG05Rig) arpSet(tab map[int]string) {
 }
 
 // arpTick waits for a periodic refresh that started after now, and for its
-// end.  With failing set, that refresh's Refresh call returns an error.
-func (r *zzG05Rig) arpTick(failing bool) {
+// end.  With failing set, that refresh's Refresh call returns an error.  ok is
+// false if the ticker (period: milliseconds) did not refresh within 10 s.
+func (r *zzG05Rig) arpTick(failing bool) (ok bool) {
 	r.arp.mu.Lock()
 	if failing {
 		r.arp.fail = true
 	}
 	n, m := r.arp.calls, r.arp.refr
 	timedOut := false
-	tm := time.AfterFunc(20*time.Second, func() {
+	tm := time.AfterFunc(10*time.Second, func() {
 		r.arp.mu.Lock()
 		timedOut = true
 		r.arp.cond.Broadcast()
@@ -515,13 +516,13 @@ func (r *zzG05Rig) arpTick(failing bool) {
 	for (failing && r.arp.refr == m || !failing && r.arp.calls == n) && !timedOut {
 		r.arp.cond.Wait()
 	}
-	ok := failing && r.arp.refr != m || !failing && r.arp.calls != n
+	ok = failing && r.arp.refr != m || !failing && r.arp.calls != n
+	r.arp.fail = false
 	r.arp.mu.Unlock()
 	tm.Stop()
-	if !ok {
-		r.tb.Fatalf("no periodic ARP refresh within 20s")
-	}
 	_ = r.st.Size() // the refresh holds the storage's lock until it is done
+
+	return ok
 }
 
 func (r *zzG05Rig) hostsSend(tab map[int][]string) {
@@ -1343,7 +1344,9 @@ func zzG05OneTrace(tb testing.TB, w *zzWriter, tr, nOps int, seed int64) {
 			how := "ReloadARP"
 			if ticker && !arpDead {
 				how = "ticker"
-				rig.arpTick(fail)
+				if !rig.arpTick(fail) {
+					how = "ticker: NO periodic refresh within 10 s"
+				}
 			} else {
 				if fail {
 					rig.arp.mu.Lock()
